@@ -34,7 +34,7 @@ Theorem C09_replace_ltr_fold :
     new_replacer_data env rep = Ok d ->
     exists toks, toks_of d = Some toks /\
       replace_string env false rep tw startAt count ms = Ok (replace_spec false ms toks count (runes_of tw)).
-Proof. intros. eapply replace_string_fold; eassumption. Qed.
+Proof. exact (thm_replace_fold is_word_char is_ecma_start is_ecma_char false). Qed.
 
 (* The same for a RightToLeft pattern (matches arrive from the end of the text; the pieces of a
    multi-rule replacement come out in rule order, the output in text order). *)
@@ -45,20 +45,20 @@ Theorem C09_replace_rtl_fold :
     new_replacer_data env rep = Ok d ->
     exists toks, toks_of d = Some toks /\
       replace_string env true rep tw startAt count ms = Ok (replace_spec true ms toks count (runes_of tw)).
-Proof. intros. eapply replace_string_fold; eassumption. Qed.
+Proof. exact (thm_replace_fold is_word_char is_ecma_start is_ecma_char true). Qed.
 
 (* A replacement string the parser rejects makes Replace return that error, whatever the rest. *)
 Theorem C09_replace_parse_error :
   forall env rtl rep c tw startAt count ms,
     new_replacer_data env rep = Err c -> replace_string env rtl rep tw startAt count ms = Err c.
-Proof. intros. apply replace_string_error. assumption. Qed.
+Proof. exact (thm_replace_parse_error is_word_char is_ecma_start is_ecma_char). Qed.
 
 (* ReplaceFunc, both directions, ANY evaluator: the same fold with the evaluator's strings. *)
 Theorem C09_replace_func_fold :
   forall rtl f tw startAt count ms,
     -1 <= count -> start_ok tw startAt -> wf_matches rtl (runes_of tw) ms ->
     replace rtl (ByEval f) tw startAt count ms = Ok (replace_spec_f rtl ms f count (runes_of tw)).
-Proof. intros rtl f tw startAt count ms Hc (H1 & H2) Hwf. apply replace_func_fold; try assumption. apply check_start_ok; assumption. Qed.
+Proof. exact (thm_replace_func_fold). Qed.
 
 (* ReplaceFunc with an evaluator that computes the expansion of a replacement = Replace with it. *)
 Theorem C09_replace_func_eq_replace :
@@ -68,7 +68,7 @@ Theorem C09_replace_func_eq_replace :
     data_ok d n -> toks_of d = Some toks ->
     (forall m, In m ms -> f m = expand toks m (runes_of tw)) ->
     replace rtl (ByEval f) tw startAt count ms = replace rtl (ByData d) tw startAt count ms.
-Proof. intros rtl d toks n f tw startAt count ms Hc (H1 & H2). intros. eapply replace_func_eq_replace; eauto. apply check_start_ok; assumption. Qed.
+Proof. exact (thm_replace_func_eq_replace). Qed.
 
 (* Replacing with "$&" is the identity, both directions, every count and valid startAt. *)
 Theorem C09_replace_amp_identity :
@@ -76,7 +76,7 @@ Theorem C09_replace_amp_identity :
     env_ok env n -> -1 <= count -> start_ok tw startAt ->
     wf_matches rtl (runes_of tw) ms -> Forall group0_ok ms ->
     replace_string env rtl [36; 38] tw startAt count ms = Ok (runes_of tw).
-Proof. intros. eapply replace_string_amp; eassumption. Qed.
+Proof. exact (thm_replace_amp_identity is_word_char is_ecma_start is_ecma_char). Qed.
 
 (* count and startAt: count < -1 and bad startAt give the documented errors (in this order),
    count = 0 returns the input unchanged, no match returns the input unchanged. *)
@@ -101,13 +101,7 @@ Theorem C09_expand_refs :
     (forall buf, replacement_impl d text m buf = Ok (buf ++ expand toks m text)) /\
     (forall al, exists pieces, replacement_impl_rtl d text m al = Ok (al ++ pieces) /\
                                concat (rev pieces) = expand toks m text).
-Proof.
-  intros d toks text m Hwf Hd Ht. split.
-  - intros buf. apply replacement_impl_ok; assumption.
-  - intros al. exists (rev (map (tok_text m text) toks)). split.
-    + apply replacement_impl_rtl_ok; assumption.
-    + rewrite rev_involutive. reflexivity.
-Qed.
+Proof. exact (thm_expand_refs). Qed.
 
 Theorem C09_expand_meaning :
   forall m text,
@@ -120,14 +114,7 @@ Theorem C09_expand_meaning :
     expand [TRight] m text = skipn (Z.to_nat (m_index m + m_length m)) text /\
     expand [TWhole] m text = text /\
     (forall a b, expand (a ++ b) m text = expand a m text ++ expand b m text).
-Proof.
-  intros m text. unfold expand. cbn [map concat tok_text].
-  repeat split; intros; try (rewrite app_nil_r; reflexivity).
-  - rewrite H. unfold cap_text. rewrite H0. apply app_nil_r.
-  - rewrite H. subst caps. reflexivity.
-  - unfold group_count. rewrite znth_last by assumption. reflexivity.
-  - rewrite map_app, concat_app. reflexivity.
-Qed.
+Proof. exact (thm_expand_meaning). Qed.
 
 (* The replacement-string parser against the declarative $-grammar (Model/Replace.v, rep_spec):
    every accepted replacement is a parse according to the grammar — $$, $& $` $' $+ $_, $n with
@@ -140,11 +127,7 @@ Theorem C09_replacement_parser_spec_partial :
     env_ok env n -> new_replacer_data env rep = Ok d ->
     (use_e env = true -> ~ In 92 rep) ->
     exists items, rep_spec env rep items /\ toks_of d = Some (compile_items env items []).
-Proof.
-  intros env n rep d Henv Hd Hbs.
-  destruct (new_replacer_data_spec _ _ _ env n Henv rep d Hd) as (_ & toks & Ht & Hg).
-  destruct (Hg Hbs) as (items & Hr & ->). exists items. split; assumption.
-Qed.
+Proof. exact (thm_parser_spec_partial is_word_char is_ecma_start is_ecma_char). Qed.
 
 (* Full (every mode, every replacement): accepted replacements only refer to existing literal
    strings and to capture slots of the Regexp's matches. *)
@@ -152,11 +135,7 @@ Theorem C09_replacer_data_ok :
   forall env n rep d,
     env_ok env n -> new_replacer_data env rep = Ok d ->
     data_ok d n /\ exists toks, toks_of d = Some toks.
-Proof.
-  intros env n rep d Henv Hd.
-  destruct (new_replacer_data_spec _ _ _ env n Henv rep d Hd) as (Hok & toks & Ht & _).
-  split; [exact Hok|]. exists toks. exact Ht.
-Qed.
+Proof. exact (thm_replacer_data_ok is_word_char is_ecma_start is_ecma_char). Qed.
 
 (* The explicit panics of replacerdata.go are unreachable (the replacement parser only builds
    One/Multi/Ref children under a Concatenate node), no index fault occurs in the parser, and the
@@ -166,7 +145,7 @@ Theorem C09_replacer_data_no_panic :
                   | Ok _ | Err _ => True
                   | Crash _ | Fuel => False
                   end.
-Proof. intros env rep. exact (new_replacer_data_good is_word_char is_ecma_start is_ecma_char env rep). Qed.
+Proof. exact (thm_no_panic is_word_char is_ecma_start is_ecma_char). Qed.
 
 (* getReplacerData returns the parse of its argument for every coherent cache state and keeps the
    cache coherent (LRU with eviction). *)
@@ -175,14 +154,14 @@ Theorem C09_cache_transparent :
     cache_coherent is_word_char is_ecma_start is_ecma_char env c ->
     fst (get_replacer_data env should_cache max_size rep c) = new_replacer_data env rep /\
     cache_coherent is_word_char is_ecma_start is_ecma_char env (snd (get_replacer_data env should_cache max_size rep c)).
-Proof. intros. apply get_replacer_data_transparent. assumption. Qed.
+Proof. exact (fun env sc ms rep c H => get_replacer_data_transparent is_word_char is_ecma_start is_ecma_char env sc ms rep c H). Qed.
 
 (* The grammar is unambiguous: a replacement string has at most one parse, so together with
    C09_replacement_parser_spec_partial the grammar DETERMINES the rule list of every accepted
    replacement. *)
 Theorem C09_replacement_grammar_unambiguous :
   forall env s i1 i2, rep_spec env s i1 -> rep_spec env s i2 -> i1 = i2.
-Proof. intros env s i1 i2. apply rep_spec_functional. Qed.
+Proof. exact (rep_spec_functional is_word_char is_ecma_start is_ecma_char). Qed.
 
 (* The only errors the parser reports: "capture group number out of range" (a digit run above
    MaxInt32 after $ or ${), and in ECMAScript mode a malformed ${name} (invalid name, bad \u escape). *)
@@ -191,7 +170,7 @@ Theorem C09_parser_error_codes :
     new_replacer_data env rep = Err c ->
     c = E_CapOutOfRange \/
     (use_e env = true /\ (c = E_InvalidECMAName \/ c = E_TooFewHex \/ c = E_InvalidHex \/ c = E_MissingBrace)).
-Proof. intros env rep c H. exact (new_replacer_data_err _ _ _ env rep c H). Qed.
+Proof. exact (thm_error_codes is_word_char is_ecma_start is_ecma_char). Qed.
 
 End Oracles.
 (* the theorems of the section, now quantified over the three oracles *)
@@ -238,11 +217,7 @@ Theorem C09_split_count :
     split rtl tw 0 ms = Ok [] /\
     split rtl tw 1 ms = Ok [runes_of tw] /\
     (zlen ms <= maxint -> split_processed (-1) ms = ms).
-Proof.
-  intros rtl tw ms. repeat split.
-  - intros count H. apply split_count_too_small. exact H.
-  - apply split_processed_all.
-Qed.
+Proof. exact (thm_split_count). Qed.
 Print Assumptions C09_split_count.
 
 (* replace.go and syntax/replacerdata.go declare the special rule numbers twice: they agree. *)
@@ -258,31 +233,30 @@ Print Assumptions C09_special_rule_numbers_agree.
    "RTL Replace rule order", "count==0 returns input", "RTL Split"): the pre-fix loops, kept in the
    model as *_unfixed, violate the statements above on these witnesses. *)
 
-Definition w_a1b2 : list (Z * Z) := [(97, 1); (49, 1); (98, 1); (50, 1)].          (* "a1b2" *)
-Definition w_rtl_ms : list mtch := [mkM 3 1 [[(3, 1)]]; mkM 1 1 [[(1, 1)]]].       (* \d, RightToLeft *)
-Definition w_angle : rdata := mkRD [[60]; [62]] [0; -5; 1].                         (* "<$&>" *)
 
-(* `\d` RightToLeft, "<$&>" on "a1b2": the unfixed driver gives "a>1<b>2<", the fold "a<1>b<2>" *)
+(* witnesses (Proofs/ReplaceParserProofs.v): w_a1b2 = "a1b2"; w_rtl_ms = the matches of \d RightToLeft on
+   it, [1@3; 1@1]; w_angle = the rules of "<$&>".
+   `\d` RightToLeft, "<$&>" on "a1b2": the unfixed driver gives "a>1<b>2<", the fold "a<1>b<2>" *)
 Theorem C09_unfixed_replace_rtl_refuted :
   replace_rtl_unfixed w_angle w_a1b2 (-1) w_rtl_ms = Ok [97; 62; 49; 60; 98; 62; 50; 60] /\
   replace_spec true w_rtl_ms [TLit [60]; TGroup 0; TLit [62]] (-1) (runes_of w_a1b2)
     = [97; 60; 49; 62; 98; 60; 50; 62] /\
   replace true (ByData w_angle) w_a1b2 (-1) (-1) w_rtl_ms = Ok [97; 60; 49; 62; 98; 60; 50; 62].
-Proof. vm_compute. repeat split; reflexivity. Qed.
+Proof. exact (thm_unfixed_replace_rtl). Qed.
 Print Assumptions C09_unfixed_replace_rtl_refuted.
 
 (* Split on a RightToLeft pattern with two matches: the unfixed loop slices [4:1] — a panic *)
 Theorem C09_unfixed_split_rtl_refuted :
   split_unfixed w_a1b2 (-1) w_rtl_ms = Crash C_slice /\
   split true w_a1b2 (-1) w_rtl_ms = Ok [[97]; [98]; []].
-Proof. vm_compute. split; reflexivity. Qed.
+Proof. exact (thm_unfixed_split_rtl). Qed.
 Print Assumptions C09_unfixed_split_rtl_refuted.
 
 (* count = 0 returned "" instead of the input *)
 Theorem C09_unfixed_replace_count0_refuted :
   replace_count0_unfixed = Ok [] /\
   replace false (ByData w_angle) w_a1b2 (-1) 0 [] = Ok (runes_of w_a1b2) /\ runes_of w_a1b2 <> [].
-Proof. vm_compute. repeat split; try reflexivity. discriminate. Qed.
+Proof. exact (thm_unfixed_count0). Qed.
 Print Assumptions C09_unfixed_replace_count0_refuted.
 
 (* ---------------------------------------------------------------------------------------------
